@@ -142,6 +142,38 @@ func (g *gen) lowerIdent() string {
 	return s
 }
 
+// Words that are Go keywords or steer the API parser elsewhere. The parser refuses Go keywords
+// only as type names, member names and data type names (curTokenIsKeyword); every other IDENT
+// position (handler and service names, keys, @server values, body types, path words) takes any
+// word, and the API words (syntax, info, service, returns, get, ...) are ordinary identifiers
+// wherever the grammar expects an IDENT.
+var (
+	looseWords  = []string{"type", "func", "returns", "service", "get", "post", "any", "map", "import", "info", "syntax",
+		"interface", "go", "api", "select", "struct", "var", "range", "return", "package", "chan", "const", "default", "goto",
+		"if", "for", "delete", "put", "head", "options", "trace", "connect", "patch", "switch", "case", "break", "continue",
+		"defer", "else", "fallthrough"}
+	strictWords = []string{"returns", "service", "get", "post", "any", "info", "syntax", "api", "put", "delete", "head",
+		"patch", "options", "trace", "connect"}
+)
+
+// looseIdent: an identifier for a position where the parser accepts every word.
+func (g *gen) looseIdent(base string) string {
+	if g.cfg.oddNames && g.r.Chance(0.3) {
+		g.f("name-keyword-where-legal")
+		return kit.Choose(g.r, looseWords)
+	}
+	return base
+}
+
+// strictIdent: an identifier for a type name, member name or data type name (no Go keyword).
+func (g *gen) strictIdent(base string) string {
+	if g.cfg.oddNames && g.r.Chance(0.12) {
+		g.f("name-api-word")
+		return kit.Choose(g.r, strictWords)
+	}
+	return base
+}
+
 func (g *gen) anyIdent() string {
 	if g.r.Bool() {
 		return g.upperIdent()
@@ -335,7 +367,7 @@ func (g *gen) infoStmt() {
 		if g.r.Chance(0.2) {
 			k = g.lowerIdent()
 		}
-		g.t(gp, k)
+		g.t(gp, g.looseIdent(k))
 		g.t(gGlue, ":")
 		g.t(gFreeOpt, g.infoValue())
 		g.close()
@@ -420,7 +452,7 @@ func (g *gen) typeGroup() {
 // typeExpr: Name [=] DataType
 func (g *gen) typeExpr(gp gap) {
 	g.open("type-expr")
-	g.t(gp, g.upperIdent())
+	g.t(gp, g.strictIdent(g.upperIdent()))
 	sp := gFree
 	if g.r.Chance(0.12) {
 		g.f("type-assign")
@@ -485,10 +517,10 @@ func (g *gen) field(gp gap, depth int) bool {
 		g.open("field-names")
 		for i := 0; i < k; i++ {
 			if i == 0 {
-				g.t(gp, g.upperIdent())
+				g.t(gp, g.strictIdent(g.upperIdent()))
 			} else {
 				g.t(gGlue, ",")
-				g.t(gGlue, g.upperIdent())
+				g.t(gGlue, g.strictIdent(g.upperIdent()))
 			}
 		}
 		g.close()
@@ -496,10 +528,20 @@ func (g *gen) field(gp gap, depth int) bool {
 	case 2: // *Embedded
 		g.f("field-embedded-ptr")
 		g.t(gp, "*")
-		g.t(gGlue, g.upperIdent())
+		if g.r.Chance(0.15) {
+			g.f("field-embedded-ptr-any")
+			g.t(gGlue, "any")
+		} else {
+			g.t(gGlue, g.strictIdent(g.upperIdent()))
+		}
 	case 3: // Embedded
 		g.f("field-embedded")
-		g.t(gp, g.upperIdent())
+		if g.r.Chance(0.12) {
+			g.f("field-embedded-any")
+			g.t(gp, "any")
+		} else {
+			g.t(gp, g.strictIdent(g.upperIdent()))
+		}
 		if g.r.Chance(0.3) {
 			g.f("field-embedded-tag")
 			g.open("tag")
@@ -510,13 +552,13 @@ func (g *gen) field(gp gap, depth int) bool {
 		return true
 	case 4: // nested anonymous struct (possibly behind [] / [N] / map)
 		if depth >= g.cfg.maxDepth {
-			g.t(gp, g.upperIdent())
+			g.t(gp, g.strictIdent(g.upperIdent()))
 			g.dataType(gSpace, 0, false)
 			break
 		}
 		g.f("field-nested-struct")
 		nestedStruct = true
-		g.t(gp, g.upperIdent())
+		g.t(gp, g.strictIdent(g.upperIdent()))
 		switch g.r.Pick(6, 2, 1, 1) {
 		case 0:
 			g.structType(gSpace, depth+1)
@@ -540,7 +582,7 @@ func (g *gen) field(gp gap, depth int) bool {
 			g.structType(gGlue, depth+1)
 		}
 	default:
-		g.t(gp, g.upperIdent())
+		g.t(gp, g.strictIdent(g.upperIdent()))
 		g.dataType(gSpace, 0, false)
 	}
 	if g.r.Chance(0.7) {
@@ -571,7 +613,7 @@ func (g *gen) dataType(gp gap, nest int, afterStar bool) {
 		if g.r.Chance(0.6) {
 			g.t(gp, kit.Choose(g.r, baseTypes))
 		} else {
-			g.t(gp, g.upperIdent())
+			g.t(gp, g.strictIdent(g.upperIdent()))
 		}
 	case 1:
 		g.f("dt-any")
@@ -622,7 +664,7 @@ func (g *gen) service() {
 	}
 	g.t(gp, "service")
 	g.open("service-name")
-	g.t(gFree, g.lowerIdent())
+	g.t(gFree, g.looseIdent(g.lowerIdent()))
 	if g.r.Chance(0.4) {
 		g.f("service-name-api")
 		g.t(gTight, "-")
@@ -646,32 +688,122 @@ func (g *gen) service() {
 	g.t(gClose, "}")
 }
 
-func (g *gen) pathSeg() {
-	switch g.r.Pick(8, 3, 2, 1, 1) {
-	case 0:
-		g.t(gTight, g.lowerIdent())
+// Path items, as the unchanged parser reads them (parsePathExpr/parsePathItem and the scanner):
+//
+//	item  = [ ":" ] first { "-" IDENT }
+//	first = IDENT | INT | INT IDENT
+//
+// IDENT is [A-Za-z_][A-Za-z0-9_]* - every word, Go keywords and API words included, except that a
+// bare `returns` ends the path. A word that starts with digits is scanned as INT followed by IDENT
+// (`2fa` = INT(2) IDENT(fa)) and glued together again by parsePathItem; when the letter after the
+// digits is one of n, µ, m, s, h the scanner reads a duration instead, and the path is rejected.
+// After "-" only IDENT is legal (no digit may follow a dash); ".", "--", "//" are rejected.
+var pathKeywordWords = []string{"type", "service", "get", "post", "put", "delete", "head", "patch", "options", "trace",
+	"connect", "info", "syntax", "import", "map", "any", "interface", "func", "go", "goto", "select", "struct", "var",
+	"range", "return", "package", "default", "if", "for", "api", "chan", "const", "case", "break", "else", "switch",
+	"continue", "defer", "fallthrough"}
+
+// letters that may follow the leading digits of a path word (not a duration unit)
+const digitTailStart = "abcdefgijklopqrtuvwxyzABCDEFGHIJKLMNOPQRSTUVWXYZ_"
+
+func (g *gen) digitLeadingWord() string {
+	s := strconv.Itoa(g.r.Range(0, 999))
+	if g.r.Chance(0.15) {
+		s = "0" + s
+	}
+	s += string(digitTailStart[g.r.Intn(len(digitTailStart))])
+	s += kit.Choose(g.r, []string{"", "a", "fa", "d", "legged", "x2", "_", "_v1", "D", "0", "returns", "s5m", "type"})
+	return s
+}
+
+// pathIdent: an IDENT of the path alphabet; afterDash/afterColon tell the position.
+func (g *gen) pathIdent(bareFirst bool) string {
+	switch g.r.Pick(10, 3, 2, 2, 1) {
 	case 1:
-		g.f("path-var")
-		g.t(gTight, ":")
-		g.t(gTight, g.lowerIdent())
+		g.f("path-keyword-word")
+		return kit.Choose(g.r, pathKeywordWords)
 	case 2:
-		g.f("path-dash")
-		g.t(gTight, g.lowerIdent())
-		k := g.r.Range(1, 2)
-		for i := 0; i < k; i++ {
-			g.t(gTight, "-")
-			g.t(gTight, g.lowerIdent())
-		}
+		g.f("path-underscore-word")
+		return kit.Choose(g.r, []string{"_", "__", "_a", "a_", "a_b", "_1", "a__b_", "_type", "v_1_2"})
 	case 3:
+		g.f("path-upper-word")
+		return g.upperIdent()
+	case 4:
+		if !bareFirst { // a bare `returns` would end the path
+			g.f("path-returns-word")
+			return "returns"
+		}
+	}
+	return g.lowerIdent()
+}
+
+// pathFirst: the first piece of a path item.
+func (g *gen) pathFirst(afterColon bool) {
+	switch g.r.Pick(12, 3, 2, 1) {
+	case 1:
+		g.f("path-digit-leading-word")
+		g.t(gTight, g.digitLeadingWord())
+	case 2:
 		g.f("path-int")
 		g.t(gTight, strconv.Itoa(g.r.Intn(1000)))
-	case 4:
-		g.f("path-var-dash")
-		g.t(gTight, ":")
-		g.t(gTight, g.lowerIdent())
-		g.t(gTight, "-")
-		g.t(gTight, g.lowerIdent())
+	case 3:
+		g.f("path-int-odd")
+		g.t(gTight, kit.Choose(g.r, []string{"0", "00", "007", "18446744073709551616", "9223372036854775808999"}))
+	default:
+		g.t(gTight, g.pathIdent(!afterColon))
 	}
+}
+
+func (g *gen) pathSeg() {
+	colon := false
+	if g.r.Chance(0.28) {
+		g.f("path-var")
+		colon = true
+		g.t(gTight, ":")
+	}
+	g.pathFirst(colon)
+	k := g.r.Pick(14, 4, 2, 1)
+	if k > 0 {
+		if colon {
+			g.f("path-var-dash")
+		} else {
+			g.f("path-dash")
+		}
+	}
+	for i := 0; i < k; i++ {
+		g.t(gTight, "-")
+		g.t(gTight, g.pathIdent(false))
+	}
+}
+
+// duration: a DURATION literal as scanIntOrDuration reads it - one unit, or several units in
+// descending order (h m s ms µs ns), each at most once, e.g. 1h30m, 2m5s, 1s500ms, 3ms20µs10ns.
+func (g *gen) duration() string {
+	units := []string{"h", "m", "s", "ms", "µs", "ns"}
+	num := func() string {
+		if g.r.Chance(0.1) {
+			return kit.Choose(g.r, []string{"0", "00", "007", "18446744073709551616"})
+		}
+		return strconv.Itoa(g.r.Range(1, 5000))
+	}
+	if g.r.Chance(0.55) {
+		return num() + kit.Choose(g.r, units)
+	}
+	g.f("sv-duration-compound")
+	var sb strings.Builder
+	for sb.Len() == 0 {
+		n := 0
+		for _, u := range units {
+			if g.r.Chance(0.45) {
+				sb.WriteString(num() + u)
+				n++
+			}
+		}
+		if n < 2 {
+			sb.Reset()
+		}
+	}
+	return sb.String()
 }
 
 func (g *gen) atServer(gp gap) {
@@ -686,19 +818,31 @@ func (g *gen) atServer(gp gap) {
 		g.f("empty-at-server")
 	}
 	keys := []string{"group", "prefix", "jwt", "middleware", "timeout", "maxBytes", "signature", "summary", "tags", "x"}
+	allZero := g.cfg.degenerate && n > 0 && g.r.Chance(0.1)
+	if allZero {
+		g.p.degenerate = true
+		g.f("at-server-all-zero-strings")
+	}
 	for i := 0; i < n; i++ {
 		g.open("kv")
 		gp := gLine
 		if i == 0 {
 			gp = gOpen
 		}
-		g.t(gp, kit.Choose(g.r, keys))
+		g.t(gp, g.looseIdent(kit.Choose(g.r, keys)))
 		g.t(gGlue, ":")
 		g.open("at-server-value")
+		if allZero {
+			g.f("zero-string")
+			g.t(gFreeOpt, `""`)
+			g.close()
+			g.close()
+			continue
+		}
 		switch g.r.Pick(5, 3, 2, 2, 2, 2, 2, 2) {
 		case 0:
 			g.f("sv-ident")
-			g.t(gFreeOpt, g.anyIdent())
+			g.t(gFreeOpt, g.looseIdent(g.anyIdent()))
 		case 1: // /a/b-c
 			g.f("sv-path")
 			g.t(gFreeOpt, "/")
@@ -707,43 +851,43 @@ func (g *gen) atServer(gp gap) {
 				if j > 0 {
 					g.t(gTight, "/")
 				}
-				g.t(gTight, g.lowerIdent())
+				g.t(gTight, g.looseIdent(g.lowerIdent()))
 				if g.r.Chance(0.25) {
 					g.t(gTight, "-")
-					g.t(gTight, g.lowerIdent())
+					g.t(gTight, g.looseIdent(g.lowerIdent()))
 				}
 			}
 		case 2: // a/b/c
 			g.f("sv-ident-path")
-			g.t(gFreeOpt, g.lowerIdent())
+			g.t(gFreeOpt, g.looseIdent(g.lowerIdent()))
 			k := g.r.Range(1, 3)
 			for j := 0; j < k; j++ {
 				g.t(gTight, "/")
-				g.t(gTight, g.lowerIdent())
+				g.t(gTight, g.looseIdent(g.lowerIdent()))
 				if g.r.Chance(0.25) {
 					g.t(gTight, "-")
-					g.t(gTight, g.lowerIdent())
+					g.t(gTight, g.looseIdent(g.lowerIdent()))
 				}
 			}
 		case 3: // A,B,C
 			g.f("sv-comma-list")
-			g.t(gFreeOpt, g.upperIdent())
+			g.t(gFreeOpt, g.looseIdent(g.upperIdent()))
 			k := g.r.Range(1, 3)
 			for j := 0; j < k; j++ {
 				g.t(gTight, ",")
-				g.t(gTight, g.upperIdent())
+				g.t(gTight, g.looseIdent(g.upperIdent()))
 			}
 		case 4: // a-b-c
 			g.f("sv-dash-list")
-			g.t(gFreeOpt, g.lowerIdent())
+			g.t(gFreeOpt, g.looseIdent(g.lowerIdent()))
 			k := g.r.Range(1, 3)
 			for j := 0; j < k; j++ {
 				g.t(gTight, "-")
-				g.t(gTight, g.lowerIdent())
+				g.t(gTight, g.looseIdent(g.lowerIdent()))
 			}
 		case 5:
 			g.f("sv-duration")
-			g.t(gFreeOpt, strconv.Itoa(g.r.Range(1, 5000))+kit.Choose(g.r, []string{"ns", "µs", "ms", "s", "m", "h"}))
+			g.t(gFreeOpt, g.duration())
 		case 6:
 			g.f("sv-int")
 			g.t(gFreeOpt, strconv.Itoa(g.r.Intn(1<<20)))
@@ -792,15 +936,25 @@ func (g *gen) serviceItem(gp gap) {
 			g.p.degenerate = true
 			g.f("empty-at-doc")
 		}
+		allZero := g.cfg.degenerate && n > 0 && g.r.Chance(0.1)
+		if allZero {
+			g.p.degenerate = true
+			g.f("at-doc-all-zero-strings")
+		}
 		for i := 0; i < n; i++ {
 			g.open("kv")
 			gq := gLine
 			if i == 0 {
 				gq = gOpen
 			}
-			g.t(gq, kit.Choose(g.r, []string{"summary", "desc", "description", "x"}))
+			g.t(gq, g.looseIdent(kit.Choose(g.r, []string{"summary", "desc", "description", "x"})))
 			g.t(gGlue, ":")
-			g.t(gFreeOpt, g.infoValue())
+			if allZero {
+				g.f("zero-string")
+				g.t(gFreeOpt, kit.Choose(g.r, []string{`""`, "``"}))
+			} else {
+				g.t(gFreeOpt, g.infoValue())
+			}
 			g.close()
 		}
 		g.t(gClose, ")")
@@ -809,7 +963,7 @@ func (g *gen) serviceItem(gp gap) {
 	}
 	g.open("at-handler")
 	g.t(gp, "@handler")
-	g.t(gFree, g.anyIdent())
+	g.t(gFree, g.looseIdent(g.anyIdent()))
 	g.close()
 
 	g.open("route")
@@ -870,7 +1024,7 @@ func (g *gen) body(kind string, gp gap) {
 	if g.r.Chance(0.1) {
 		g.t(gGlue, kit.Choose(g.r, baseTypes))
 	} else {
-		g.t(gGlue, g.upperIdent())
+		g.t(gGlue, g.looseIdent(g.upperIdent()))
 	}
 	g.t(gGlue, ")")
 }
